@@ -207,19 +207,43 @@ func (obj *Package) Unuse(pkg *Package) {
 				break
 			}
 		}
-		// Rebuild to make sure use tree branches are removed as well.
+		// Rebuild to make sure use tree branches are removed as well. What
+		// belongs to the package itself or was imported is kept, the rest is
+		// inherited again from the packages still used.
+		vars, funcs, classes := obj.vars, obj.funcs, obj.classes
 		obj.vars = map[string]*VarVal{}
 		obj.funcs = map[string]*FuncInfo{}
 		obj.classes = map[string]Class{}
-		for _, p := range obj.Uses {
-			for name, vv := range p.vars {
+		for name, vv := range vars {
+			if vv.Pkg == obj || obj.Imports[name] != nil {
 				obj.vars[name] = vv
 			}
-			for name, fi := range p.funcs {
+		}
+		for name, fi := range funcs {
+			if fi.Pkg == obj || obj.Imports[name] != nil {
 				obj.funcs[name] = fi
 			}
-			for name, c := range p.classes {
+		}
+		for name, c := range classes {
+			if c.Pkg() == obj {
 				obj.classes[name] = c
+			}
+		}
+		for _, p := range obj.Uses {
+			for name, vv := range p.vars {
+				if _, has := obj.vars[name]; !has && vv.Export {
+					obj.vars[name] = vv
+				}
+			}
+			for name, fi := range p.funcs {
+				if _, has := obj.funcs[name]; !has && fi.Export {
+					obj.funcs[name] = fi
+				}
+			}
+			for name, c := range p.classes {
+				if _, has := obj.classes[name]; !has {
+					obj.classes[name] = c
+				}
 			}
 		}
 	}
